@@ -17,7 +17,7 @@ PROP = dict(
         "the per-algorithm range theorems are about the models of C03/C09/C10/C11/C12/C13 and are only as tied to the code as "
         "those checks' correspondence runs make them; this check itself runs the implementation only (panic / hang / range)",
         "the harness decides what is inside the usage contract (it generates only in-contract inputs) and the requested part count",
-        "hang = no answer within the 20 s watchdog",
+        "hang = no answer within the 90 s watchdog",
     ],
     assumptions=[
         "usage contract as stated in the property: matching lengths, finite coordinates, finite non-negative weights with positive total",
@@ -33,6 +33,6 @@ MANIFEST = dict(
          "violations.",
     design_ref="DESIGN.md §7 C01",
     note="This check does not evaluate a model per case (the models are compared in the per-algorithm checks); it is the "
-         "place where the implementation is run over the full C01 quantifier. Hang detection is a 20 s watchdog.",
+         "place where the implementation is run over the full C01 quantifier. Hang detection is a 90 s watchdog.",
     technique="Coq proof (per-algorithm range theorems) + certified range checker on implementation runs across pool sizes",
 )
